@@ -375,6 +375,7 @@ func RunCheck(p *Prop, tier string) int {
 		path := filepath.Join(vd, "replays", fmt.Sprintf("%s-%x.json", p.ID, sum[:6]))
 		os.WriteFile(path, b, 0o644)
 		ok := 0
+		otherKeys := map[string]int{}
 		for i := 0; i < 5; i++ {
 			bin, env := VariantEnv(v.Variant)
 			cmd := exec.Command(filepath.Join(binDir, "vcheck-"+bin), "--replay", path, "--mem", fmt.Sprint(mem))
@@ -385,8 +386,29 @@ func RunCheck(p *Prop, tier string) int {
 			outb, _ := cmd.CombinedOutput()
 			if strings.Contains(string(outb), "REPLAY-RESULT FAIL key="+k+"\n") {
 				ok++
+			} else if i := strings.Index(string(outb), "REPLAY-RESULT FAIL key="); i >= 0 {
+				// the case fails in a fresh process too, but differently (an error
+				// where the worker saw wrong data, say: the worker's process had
+				// warm pools and caches): it is a failure of this case all the
+				// same, reported under what the fresh process sees
+				rest := string(outb)[i+len("REPLAY-RESULT FAIL key="):]
+				if j := strings.IndexByte(rest, '\n'); j >= 0 {
+					rest = rest[:j]
+				}
+				otherKeys[rest]++
 			} else if (v.Failure.Kind == "crash" || v.Failure.Kind == "hang") && !strings.Contains(string(outb), "REPLAY-RESULT") {
 				ok++ // died or hung again before reporting
+			}
+		}
+		if ok < 5 && len(otherKeys) == 1 {
+			for ok2, n := range otherKeys {
+				if ok+n == 5 {
+					if kk := strings.SplitN(ok2, "|", 2); len(kk) == 2 {
+						v.Failure.Detail = fmt.Sprintf("(in the worker process this case failed as %s|%s; every fresh-process replay fails as below)\n%s", v.Failure.Kind, v.Failure.Shape, v.Failure.Detail)
+						v.Failure.Kind, v.Failure.Shape = kk[0], kk[1]
+						ok = 5
+					}
+				}
 			}
 		}
 		if ok < 5 {
